@@ -92,12 +92,12 @@ def nonneg(term, rctx):
 
 def run(model, rep, tier):
     rep.explanation = EXPLANATION
-    n = check_against_spec(model, rep, "R0", KINDS, "P")
-    rep.floor("R0", n, 22)
-    r1_r2(model, rep)
-    r3(model, rep)
-    r5(model, rep)
-    sysrules.c02_call_agreement(model, rep)
+    A = rep.attempt
+    A(lambda: rep.floor("R0", check_against_spec(model, rep, "R0", KINDS, "P"), 22))
+    A(r1_r2, model, rep)
+    A(r3, model, rep)
+    A(r5, model, rep)
+    A(sysrules.c02_call_agreement, model, rep)
 
 
 def r1_r2(model, rep):
